@@ -103,6 +103,13 @@ class Composition(object):
         """Enable the '[] =' notation."""
         self.tracks[index] = value
 
+    def __eq__(self, other):
+        """Enable the '==' operator for Compositions: equal tracks."""
+        return self.tracks == other.tracks
+
+    def __ne__(self, other):
+        return not self.__eq__(other)
+
     def __len__(self):
         """Enable the len() function."""
         return len(self.tracks)
